@@ -1686,6 +1686,30 @@ pub fn run(args: &Args) {
             cases.push(g.program(profile));
         }
     }
+    // D20 witness (always run): a handle that survives RootHandle::dispose must not alias a node of the next
+    // generation of the same root
+    {
+        let r = catch(|| {
+            let mut old = None;
+            let root = create_root(|| { let _pad = create_signal(0i64); old = Some(create_signal(1i64)); });
+            let old = old.unwrap();
+            root.dispose();
+            let mut new = None;
+            root.run_in(|| { let _pad = create_signal(0i64); new = Some(create_signal(100i64)); });
+            let new = new.unwrap();
+            root.run_in(|| {
+                let alive = old.is_alive();
+                if alive { old.set(7); }
+                (alive, new.get_untracked())
+            })
+        });
+        let (obs, verdict) = match r {
+            Ok((alive, v)) => (format!("old_alive={} new={v}", alive as u8),
+                if alive || v != 100 { Some(format!("[freed-early] a signal of a disposed root reports is_alive() = {alive} after the root was re-used, and a write through it left the new signal at {v} (expected 100)")) } else { None }),
+            Err(m) => ("panic".into(), Some(format!("[unexpected-panic] re-using a disposed root panicked: {m}"))),
+        };
+        sink.case("reactive special root-reuse", &obs, verdict, true);
+    }
     let trace_cases = std::env::var("VERIF_TRACE_CASES").is_ok();
     for ops in &cases {
         let line = case_line(ops);
